@@ -48,9 +48,10 @@ def handle (line : String) : Out :=
       match parseHex? hex with
       | none => badOp
       | some b =>
-        let m := fmtLocs (extract b)
+        let ex := extract b
+        let m := fmtLocs ex
         let cmp := cmpField impl
-        let x := fmtComps (GV.Model.OffsetsWit.components b)
+        let x := fmtComps (GV.Model.OffsetsWit.componentsOf b ex)
         let model := s!"S={m} E={m} {cmp} X={x}"
         let spec :=
           if cmp = "cmp=nodec" then "*"
